@@ -1637,12 +1637,13 @@ void MDSDRV_Linker::add_song(RIFF& mds, const std::string& filename)
 			auto end = begin + header.size;
 			header.position = 0;
 			header.start = 0;
-			uint16_t offset = wave_rom.add_sample(header, std::vector<uint8_t>(begin, end));
+			// the sample index is not limited to 16 bits (headers that differ only in loop or rate share one entry below)
+			unsigned int sample_id = wave_rom.add_sample(header, std::vector<uint8_t>(begin, end));
 
 			// Get new PCM header
-			header = wave_rom.get_sample_headers().at(offset);
+			header = wave_rom.get_sample_headers().at(sample_id);
 			auto hdata = get_pcm_header(header);
-			offset = add_unique_data(std::vector<uint8_t>(hdata.begin(), hdata.end()));
+			uint16_t offset = add_unique_data(std::vector<uint8_t>(hdata.begin(), hdata.end()));
 			printf("replace seq+%04x with %04x (PCM header)\n", addr, offset);
 			patch_table.push_back({addr, offset});
 		}
